@@ -126,13 +126,16 @@ Definition subset_str (a b : list string) : bool := forallb (fun s => mem_str s 
 Definition is_nil_list {A} (l : list A) : bool := match l with [] => true | _ => false end.
 
 (** obs = (0 panic | 1 error naming options | 2 running and serving | 3 running but wedged, reported names) *)
-Definition ctor_mon (rejected primary secondary : list string) (obs : nat * list string) : bool :=
+(** [other_nil]: the error names an option that ends up nil although it is not documented as required (the
+    constructor validates more than the documentation promises, e.g. the state machine store): a legitimate reason to
+    refuse, after which the requirements that only show on an uninitialised chain need not be named as well *)
+Definition ctor_mon (rejected primary secondary : list string) (other_nil : bool) (obs : nat * list string) : bool :=
   match obs with
   | (1, rep) =>
       negb (is_nil_list rep) &&
       (if is_nil_list rejected
        then subset_str primary rep &&
-            (if is_nil_list primary then is_nil_list secondary || existsb (fun s => mem_str s rep) secondary else true)
+            (if is_nil_list primary then is_nil_list secondary || existsb (fun s => mem_str s rep) secondary || other_nil else true)
        else subset_str rejected rep)
   | (2, _) => is_nil_list rejected && is_nil_list primary && is_nil_list secondary
   | _ => false
@@ -142,4 +145,5 @@ Definition ctor_mon_for (k : ctor) (mirror chain_init : bool) (table : list opti
            (obs : nat * list string) : bool :=
   ctor_mon (rejected_opts table opts)
            (primary_missing k mirror table opts ++ conditional_missing mirror table opts)
-           (secondary_missing mirror chain_init table opts) obs.
+           (secondary_missing mirror chain_init table opts)
+           (existsb (fun r => is_nil (eff_status table r opts)) (snd obs)) obs.
